@@ -196,5 +196,12 @@ def resampleSpec (sig : List α) (step : Arg α) (order : Nat) (zero : α) (n : 
 
 end Resample
 
+/-! ### TableLookup.harmonize -/
+
+/-- spec: partial `p` reads the table `p+1` times as fast (cyclically) -/
+def harmonizeSpec (t : List α) (harm : List (Nat × α)) : List α :=
+  (List.range t.length).map fun k =>
+    harm.foldl (fun acc pa => acc + t.getD ((k * (pa.1 + 1)) % t.length) 0 * pa.2) 0
+
 end Arith
 end ALV.C19
